@@ -906,6 +906,9 @@ func runC18(env *Env) {
 		// -- the matrix of the property's quantifier
 		scerts := []string{"trusted", "otherca", "selfsigned", "expired", "future", "wrongsan", "nosan"}
 		snames := []string{"set", "unset", "mismatch"}
+		if env.Thorough() { // IP-literal ServerNames over the whole matrix as well
+			snames = append(snames, "ip", "badip")
+		}
 		ccerts := []string{"none", "trusted", "otherca", "expired"}
 		ccas := []string{"set", "unset"}
 		vers := []string{"11", "12", "13"}
